@@ -19,6 +19,12 @@ LIB = (
     "{% macro wrap(f, t) %}[{{ caller() }}|{{ f(t) }}|{{ caller() }}]{% endmacro %}"
     "{% macro acc(f, xs) %}{% set ns = namespace(s=0) %}{% for x in xs %}"
     "{% set ns.s = ns.s + x %}{{ f(x) }}{% endfor %}={{ ns.s }}{% endmacro %}"
+    "{% macro acc0(f, xs) %}{% set ns = namespace() %}{% set ns.n = 0 %}{% set ns.acc = 'L' %}"
+    "{% for x in xs %}{% set ns.n = ns.n + x %}{{ f(x) }}{% set ns.acc = ns.acc ~ x %}{% endfor %}"
+    "={{ ns.n }}{{ ns.acc }}{% endmacro %}"
+    "{% macro accd(f, xs, d) %}{% set ns = namespace(d) %}{% for x in xs %}"
+    "{% set ns.n = ns.n + x %}{{ f(x) }}{% set ns.acc = ns.acc ~ x %}{% endfor %}"
+    "={{ ns.n }}{{ ns.acc }}{% endmacro %}"
     "{% macro cyc(f, xs) %}{% set c = cycler('a', 'b', 'c') %}{% set j = joiner(',') %}"
     "{% for x in xs %}{{ j() }}{{ c.next() }}{{ f(x) }}{% endfor %}{{ c.current }}{% endmacro %}"
     "{% macro dflt(f, a, b='d' ~ K) %}{{ a }}{{ f(a) }}{{ b }}{% endmacro %}"
@@ -35,6 +41,8 @@ INC = [
     "{{ name }}{{ g('i1') }}{% for x in xs %}{{ loop.index }}{{ g(x) }}{{ name }}{% endfor %}",
     "{% set iv = name ~ '!' %}{{ g('i2') }}{{ iv }}{% import 'lib.j2' as l2 %}{{ l2.row(g, 1) }}",
     "{% set ns = namespace(c=0) %}{% for x in xs %}{% set ns.c = ns.c + 1 %}{{ g(x) }}{% endfor %}{{ ns.c }}{{ name }}",
+    "{% set ns = namespace() %}{% set ns.n = 0 %}{% set ns.acc = name %}{% for x in xs %}"
+    "{% set ns.n = ns.n + 1 %}{{ g(x) }}{% set ns.acc = ns.acc ~ ns.n %}{% endfor %}{{ ns.n }}{{ ns.acc }}",
 ]
 
 
@@ -51,11 +59,11 @@ class FG:
 
     def frag(self):
         r = self.r
-        makers = [self.loop, self.loop2, self.namespace, self.imp_macro, self.imp_call,
+        makers = [self.loop, self.loop2, self.namespace, self.namespace_bare, self.namespace_dict, self.imp_macro, self.imp_call,
                   self.imp_acc, self.imp_cyc, self.autoescape, self.autoescape_dyn,
                   self.local_macro, self.include, self.setblock, self.cycler, self.with_,
                   self.recursive, self.filters, self.loopfilter, self.assign, self.ctx_import,
-                  self.callblock_local, self.autoescape_dyn]
+                  self.callblock_local, self.autoescape_dyn, self.namespace_bare]
         return r.choice(makers)()
 
     def loop(self):
@@ -77,6 +85,37 @@ class FG:
                 "{% set ns = namespace(n=0, acc='') %}{% for x in xs %}{% set ns.n = ns.n + x %}"
                 "{{ g(x) }}{% set ns.acc = ns.acc ~ x %}{% endfor %}{{ ns.n }}|{{ ns.acc }}")
 
+    def namespace_bare(self):
+        # namespace() without arguments, attributes initialised by later
+        # assignments (optionally created before / inside / after a g() call,
+        # optionally a second namespace alive at the same time)
+        r = self.r
+        init = r.choice(["{% set ns.n = 0 %}{% set ns.acc = name %}",
+                         "{% set ns.acc = name %}{{ g(" + self.t() + ") }}{% set ns.n = 0 %}",
+                         "{% set ns.n, ns.acc = 0, name %}"])
+        second = r.random() < 0.4
+        return ("namespace-bare",
+                "{% set ns = namespace() %}" + init
+                + ("{% set other = namespace() %}{% set other.n = 100 %}{% set other.acc = '' %}"
+                   if second else "")
+                + "{% for x in xs %}{% set ns.n = ns.n + x %}{{ g(x) }}"
+                + ("{% set other.n = other.n + 1 %}{% set other.acc = other.acc ~ name %}"
+                   if second else "")
+                + "{% set ns.acc = ns.acc ~ x %}{% endfor %}{{ ns.n }}|{{ ns.acc }}"
+                + ("|{{ other.n }}|{{ other.acc }}" if second else ""))
+
+    def namespace_dict(self):
+        # namespace(mapping from data): a per-render dict, a dict shared by the
+        # concurrently rendering tasks, a dict literal, mapping + keywords
+        arg = self.r.choice(["init", "shared_init", "shared_init", "{'n': 0, 'acc': name}",
+                             "init, acc='k'", "shared_init, n=1", "dict(shared_init)"])
+        if self.r.random() < 0.3:
+            return ("namespace-dict", "{{ lib.accd(g, xs, "
+                    + self.r.choice(["init", "shared_init", "{'n': 0, 'acc': name}"]) + ") }}")
+        return ("namespace-dict",
+                "{% set ns = namespace(" + arg + ") %}{% for x in xs %}{% set ns.n = ns.n + x %}"
+                "{{ g(x) }}{% set ns.acc = ns.acc ~ x %}{% endfor %}{{ ns.n }}|{{ ns.acc }}")
+
     def imp_macro(self):
         return ("import-macro", "{{ lib.row(g, " + self.t() + ") }}{{ name }}"
                 "{{ lib.dflt(g, 'z') }}{{ lib.rec(g, 2) }}")
@@ -86,7 +125,8 @@ class FG:
                 "{% call lib.wrap(g, " + self.t() + ") %}{{ name }}{{ g('cb') }}{% endcall %}")
 
     def imp_acc(self):
-        return ("import-macro-namespace", "{{ lib.acc(g, xs) }}")
+        m = self.r.choice(["acc", "acc0"])
+        return ("import-macro-namespace", "{{ lib." + m + "(g, xs) }}")
 
     def imp_cyc(self):
         return ("import-macro-cycler", "{{ lib.cyc(g, xs) }}")
